@@ -593,6 +593,9 @@ type hookAuth struct {
 }
 
 func (h *hookAuth) Start(si *smtp.ServerInfo) (string, []byte, error) {
+	if h.at == -1 && h.call != nil {
+		h.call() // before the AUTH command is sent
+	}
 	m, resp, err := h.inner.Start(si)
 	if resp != nil {
 		h.resps = append(h.resps, resp)
@@ -612,7 +615,13 @@ func (h *hookAuth) Next(fromServer []byte, more bool) ([]byte, error) {
 	return resp, err
 }
 
-// case: cc <mech> <method close|quit|reset|noop> <at> <hello e|i> <user> <secret>; oracle only, every logger
+// case: cc <mech> <method> <at> <hello e|i> <user> <secret>; oracle only, every logger.
+//
+//	method: close quit reset noop | dbgon (the session starts with debug logging OFF, SetDebugLog(true) is called at that
+//	point) | dbgtoggle (SetDebugLog(true), (false), SetLogger, (true)) | setlogger (the logger is replaced by a second one;
+//	both are scanned) | logauth (SetLogAuthData: from then on the data MAY be logged - only the records handed over before
+//	the call are scanned; afterwards the NOOP after Auth must be logged verbatim);  at = -1: inside Start, before the AUTH
+//	command is sent; at = k: before the k-th call of Next
 func runCC(r *hx.Run, c hx.Case) {
 	var sc scenario
 	sc.mech, sc.mut = c.Args[0], "none"
@@ -625,7 +634,9 @@ func runCC(r *hx.Run, c hx.Case) {
 	}
 	r.AddOracleOnly(c, true)
 	r.Dist["concurrent:"+method]++
-	one := func(lg log.Logger) (*hookAuth, []string) {
+	debugOff := method == "dbgon" || method == "dbgtoggle"
+	// one session; lg2 replaces lg for method setlogger; atCall is run when the method is called
+	one := func(lg, lg2 log.Logger, atCall func()) (*hookAuth, []string) {
 		st := &scripted{ref: newRef(&sc), sc: &sc}
 		sess, err := saslx.NewSessionHello("localhost", []string{capsLine}, func(line string) string {
 			rp, ok := st.onLine(line)
@@ -639,9 +650,14 @@ func runCC(r *hx.Run, c hx.Case) {
 		}
 		cl := sess.Client
 		cl.SetLogger(lg)
-		cl.SetDebugLog(true)
+		if !debugOff {
+			cl.SetDebugLog(true)
+		}
 		h := &hookAuth{inner: mkAuth(&sc), at: at}
 		h.call = func() {
+			if atCall != nil {
+				atCall()
+			}
 			switch method {
 			case "close":
 				_ = cl.Close()
@@ -649,8 +665,19 @@ func runCC(r *hx.Run, c hx.Case) {
 				_ = cl.Quit()
 			case "reset":
 				_ = cl.Reset()
-			default:
+			case "noop":
 				_ = cl.Noop()
+			case "dbgon":
+				cl.SetDebugLog(true)
+			case "dbgtoggle":
+				cl.SetDebugLog(true)
+				cl.SetDebugLog(false)
+				cl.SetLogger(lg)
+				cl.SetDebugLog(true)
+			case "setlogger":
+				cl.SetLogger(lg2)
+			case "logauth":
+				cl.SetLogAuthData()
 			}
 		}
 		_ = cl.Auth(h)
@@ -671,29 +698,44 @@ func runCC(r *hx.Run, c hx.Case) {
 		return m
 	}
 	where := "-after-concurrent-" + method
-	cap := &capLogger{}
-	if h, lines := one(cap); h != nil {
+	cap, cap2 := &capLogger{}, &capLogger{}
+	cut := -1
+	if h, lines := one(cap, cap2, func() { cut = len(cap.recs) }); h != nil {
 		n := nd(h, lines)
-		for _, rec := range cap.recs {
+		recs, late := cap.recs, cap.Late()
+		if method == "logauth" {
+			// the opt-in was given at record [cut]: what was handed over before must be clean; what follows may carry the data
+			if cut >= 0 && cut <= len(recs) {
+				recs, late = recs[:cut], nil
+			}
+			if k := len(cap.recs); k >= 2 && string(cap.recs[k-2]) != ">NOOP" && string(cap.recs[k-1]) == "<250 ok" {
+				r.Fail(c.ID, "window-left-open-after-optin-during-auth", fmt.Sprintf("%s: SetLogAuthData called while Auth was running (at %d): the NOOP after Auth is logged as %q", sc.mech, at, cap.recs[k-2]))
+			}
+		}
+		for _, rec := range append(append([][]byte{}, recs...), cap2.recs...) {
 			scan(r, c.ID, "capture"+where, rec, n)
 		}
-		for _, rec := range cap.Late() {
+		for _, rec := range append(append([][]byte{}, late...), cap2.Late()...) {
 			scan(r, c.ID, "retaining-logger"+where, rec, n)
 		}
 	}
-	bl := &batchLogger{n: 3}
-	if h, lines := one(bl); h != nil {
+	if method == "logauth" {
+		return
+	}
+	bl, bl2 := &batchLogger{n: 3}, &batchLogger{n: 3}
+	if h, lines := one(bl, bl2, nil); h != nil {
 		bl.Flush()
+		bl2.Flush()
 		n := nd(h, lines)
-		for _, rec := range bl.out {
+		for _, rec := range append(append([][]byte{}, bl.out...), bl2.out...) {
 			scan(r, c.ID, "batching-logger"+where, rec, n)
 		}
 	}
 	var sb, jb bytes.Buffer
-	if h, lines := one(log.New(&sb, log.LevelDebug)); h != nil {
+	if h, lines := one(log.New(&sb, log.LevelDebug), log.New(&sb, log.LevelDebug), nil); h != nil {
 		scan(r, c.ID, "stdlog"+where, sb.Bytes(), nd(h, lines))
 	}
-	if h, lines := one(log.NewJSON(&jb, log.LevelDebug)); h != nil {
+	if h, lines := one(log.NewJSON(&jb, log.LevelDebug), log.NewJSON(&jb, log.LevelDebug), nil); h != nil {
 		n := nd(h, lines)
 		scan(r, c.ID, "jsonlog"+where, jb.Bytes(), n)
 		scan(r, c.ID, "jsonlog"+where, jsonMsgs(jb.Bytes()), n)
@@ -813,11 +855,11 @@ func Run(r *hx.Run, replay []hx.Case) {
 	}
 	for round := 0; round < ccRounds && !r.Expired(); round++ {
 		for _, m := range mechs {
-			for at := 0; at < steps[m]; at++ {
-				for _, method := range []string{"close", "quit", "reset", "noop"} {
+			for at := -1; at < steps[m]; at++ {
+				for _, method := range []string{"close", "quit", "reset", "noop", "dbgon", "dbgtoggle", "setlogger", "logauth"} {
 					for _, h := range []string{"e", "i"} {
 						runCase(r, hx.Case{ID: r.NewID(), Kind: "cc", Args: []string{m, method, strconv.Itoa(at), h,
-							hx.Hex([]byte("user")), hx.Hex([]byte(secretOf(r, at+round)))}})
+							hx.Hex([]byte("user")), hx.Hex([]byte(secretOf(r, at+1+round)))}})
 					}
 				}
 			}
